@@ -48,6 +48,10 @@ def main(ctx):
                     for cht in vals:
                         jobs.append({"sc": "close", "role": role, "start": start, "cht": cht,
                                      "sdt": vals[-1], "how": "fail"})
+                        if role == "client":
+                            # ... or by the application's onConnect() rejecting the server's response
+                            jobs.append({"sc": "close", "role": role, "start": start, "cht": cht,
+                                         "sdt": vals[-1], "how": "onconnect"})
                     jobs.append({"sc": "close", "role": role, "start": start, "cht": vals[-1] + 1,
                                  "sdt": vals[-1] + 1, "autoping": True})
                 for I in vals:
@@ -91,7 +95,7 @@ def main(ctx):
               "close:responsive_ok", "drop:silent_dropped", "drop:responsive_ok",
               "ping:silent_dropped", "ping:responsive_ok", "ping:data_counts",
               "ping:data_does_not_count", "after_closed_checked", "pings_seen", "disabled_ok",
-              "stalled_peer_jobs", "ping:chatty_peer_runs", "ping:fragment_as_traffic", "proxy_jobs", "proxy_answers_at_once", "close_started_by_failing", "close_with_autoping", "ping_size_125", "ping:connection_ends_with_ping_outstanding", "ping:app_between_streamed_frames", "ping:app_closes_with_ping_outstanding",
+              "stalled_peer_jobs", "ping:chatty_peer_runs", "ping:fragment_as_traffic", "proxy_jobs", "proxy_answers_at_once", "close_started_by_failing", "close_started_by_failing_onconnect", "close_with_autoping", "ping_size_125", "ping:connection_ends_with_ping_outstanding", "ping:app_between_streamed_frames", "ping:app_closes_with_ping_outstanding",
               "peerclose_echo"):
         ctx.require(n)
 
@@ -340,10 +344,13 @@ def job(a):
         # how = "fail": the closing handshake is started by FAILING the connection (the peer sent a
         # frame with a reserved opcode, failByDrop=False): the same deadline and the same tolerance for
         # a peer that answers our close frame in time
-        fail = a.get("how") == "fail"
+        fail = a.get("how") in ("fail", "onconnect")
+        onconnect = a.get("how") == "onconnect"
         if fail:
             opts["failByDrop"] = False
             count("close_started_by_failing")
+        if onconnect:
+            count("close_started_by_failing_onconnect")
         if role == "client":
             opts["serverConnectionDropTimeout"] = sdt
         if a.get("autoping"):
@@ -352,16 +359,23 @@ def job(a):
             opts["autoPingInterval"] = 1
             opts["autoPingTimeout"] = 1
             count("close_with_autoping")
-        for t1 in (0.0, 0.5):
+        for t1 in ((0.0,) if onconnect else (0.0, 0.5)):
             for reply in ([None] if stalled else frange(0, cht + 0.75) + [None]):
                 drops = [None] if role == "server" or reply is None or reply > cht else \
                     frange(0, sdt + 0.75) + [None]
                 for tdrop in drops:
                     r = Run(role, opts, start)
+                    if onconnect:
+                        def refuse(proto, response):
+                            raise RuntimeError("the application does not like this server")
+                        r.p.hooks = {"connect": refuse}
                     r.handshake()
                     evals[0] += 1
                     case = {"t1": t1, "reply": reply, "tcpdrop": tdrop}
-                    acts = [(t1, (lambda: r.feed_frame(3, b"x")) if fail else (lambda: r.p.sendClose(1000, "x")))]
+                    if onconnect:
+                        acts = []         # the closing handshake began while the response was processed
+                    else:
+                        acts = [(t1, (lambda: r.feed_frame(3, b"x")) if fail else (lambda: r.p.sendClose(1000, "x")))]
                     if reply is not None:
                         acts.append((t1 + reply, lambda: r.feed_frame(8, r.F.close_payload(1000, b"ok"))))
                         if tdrop is not None:
